@@ -5,7 +5,7 @@ ROOT = os.path.join(os.path.dirname(os.path.abspath(__file__)), '..')
 
 TECH = "deterministic simulation with fault injection: "
 claims = {
- "C01": ("sim-arena", "5 C01", "Every block handed out through any carrier (Bump/BumpScope/&/&mut/WithoutDealloc/WithoutShrink/dyn) is checked, in seeded histories on seeded configurations, heap policies and fault plans, for: inside a chunk's content range that is inside a live SimHeap grant, aligned, large enough, disjoint from every live block, behind the bump position.",
+ "C01": ("sim-arena+sim-coll", "5 C01", "(collection world, 20 % of the runs: the buffers of all live vectors including their spare capacity, split-off parts and unrelated neighbouring allocations are pairwise disjoint and neighbours are re-read after every step) Every block handed out through any carrier (Bump/BumpScope/&/&mut/WithoutDealloc/WithoutShrink/dyn) is checked, in seeded histories on seeded configurations, heap policies and fault plans, for: inside a chunk's content range that is inside a live SimHeap grant, aligned, large enough, disjoint from every live block, behind the bump position.",
          TECH + "seeded histories on a simulated base allocator; per-step geometric invariants over all live blocks"),
  "C02": ("sim-arena", "5 C02", "Every live block holds a unique byte pattern that is re-read after every operation; reallocation prefixes, zeroed tails, committed prepared ranges and a write-set diff of all granted memory across each reallocation are checked; red zones around chunks.",
          TECH + "pattern re-read of all live blocks after every step, write-set diff across reallocations"),
